@@ -234,6 +234,16 @@ def ueoOf (loc dash sx host sender : Bytes) (ex : Bytes → Option Bool) : Excep
       | some true => .ok (loc ++ ownerB ++ [DASH, AT] ++ host ++ [DASH, AT, 91, 93])
       | some false => .ok (loc ++ ownerB ++ [AT] ++ host)
 
+/-- the names `qmeox` gives to `stat`, in order: none for bounces; `…-owner`; `…-owner-default` only if the
+first `stat` succeeded -/
+def ueoStats (dash sx sender : Bytes) (ex : Bytes → Option Bool) : List Bytes :=
+  if sender = [] ∨ sender = bounceVerp then []
+  else
+    let o1 := dotQmail ++ dash ++ sx ++ ownerB
+    match ex o1 with
+    | some true => [o1, dotQmail ++ dash ++ sx ++ ownerDefaultB]
+    | _ => [o1]
+
 /-! ## 6. The instruction loop -/
 
 inductive Instr
@@ -415,6 +425,7 @@ structure Result where
   why : Option Why := none
   stickyWarn : Bool := false
   tried : List Bytes := []           -- names opened by qmesearch
+  stats : List Bytes := []           -- names given to stat by qmeox (-owner files)
   sel : Option Cand := none          -- the control file selected
   dfltEnv : Option Bytes := none     -- $DEFAULT
   ueo : Option Bytes := none         -- $NEWSENDER
@@ -472,14 +483,18 @@ def run (a : Args) (w : World) : Result :=
       | .nofile =>
         if a.dash ≠ [] then { code := Why.noMailbox.code, why := some .noMailbox, stickyWarn := warn, tried := tried }
         else match ueoOf a.loc a.dash sx a.host a.sender w.ex with
-          | .error n => { code := 111, why := some (.qmailTemp n), stickyWarn := warn, tried := tried }
-          | .ok u => deliver a w a.aliasempty false { stickyWarn := warn, tried := tried, ueo := some u }
+          | .error n => { code := 111, why := some (.qmailTemp n), stickyWarn := warn, tried := tried,
+                          stats := ueoStats a.dash sx a.sender w.ex }
+          | .ok u => deliver a w a.aliasempty false { stickyWarn := warn, tried := tried,
+                                                      stats := ueoStats a.dash sx a.sender w.ex, ueo := some u }
       | .found c mode content =>
         let de := c.dflt.map (fun i => a.ext.drop i)
         match ueoOf a.loc a.dash sx a.host a.sender w.ex with
-        | .error n => { code := 111, why := some (.qmailTemp n), stickyWarn := warn, tried := tried, sel := some c, dfltEnv := de }
+        | .error n => { code := 111, why := some (.qmailTemp n), stickyWarn := warn, tried := tried,
+                        stats := ueoStats a.dash sx a.sender w.ex, sel := some c, dfltEnv := de }
         | .ok u =>
-          let r : Result := { stickyWarn := warn, tried := tried, sel := some c, dfltEnv := de, ueo := some u }
+          let r : Result := { stickyWarn := warn, tried := tried, stats := ueoStats a.dash sx a.sender w.ex,
+                              sel := some c, dfltEnv := de, ueo := some u }
           if content = [] then deliver a w a.aliasempty false r
           else deliver a w content (mode &&& xBit ≠ 0) r
 
